@@ -11,15 +11,7 @@ from . import sym
 from .hir import callee, pat_binds, peel, place, pp
 
 
-class ElemRef:
-    def __init__(self, lst, idx):
-        self.lst, self.idx = lst, idx
-
-    def get(self):
-        return self.lst[self.idx]
-
-    def set(self, v):
-        self.lst[self.idx] = v
+ElemRef = sym.ElemRef
 
 
 class ListView(list):
